@@ -136,6 +136,8 @@ ENTRY_POOL = [
     {"ep": "direct", "kind": "active", "dt": "bytes"},
     {"ep": "direct", "kind": "vpassive", "dt": "bytes"},
     {"ep": "direct", "kind": "vactive", "dt": "bytearray"},
+    {"ep": "direct", "kind": "passive", "dt": "bytes", "consume": "first"},
+    {"ep": "direct", "kind": "active", "dt": "message", "consume": "first"},
     {"ep": "text", "kind": "passive"},
     {"ep": "text", "kind": "vpassive"},
     {"ep": "text", "kind": "active"},
@@ -320,7 +322,7 @@ def gen(rs: int, index: int, tier: str) -> Dict[str, Any]:
     # text rendering choices live in the frame records (self-describing, shrinkable)
     rt = S.rng("text")
     out_frames: List[List[Any]] = []
-    style = rt.randint(0, 7)
+    style = rt.randint(0, 15)
     for f in frames:
         n = len(f[1]) // 2
         out_frames.append(f + [pick_fmt(rt, mode, n)])
@@ -372,7 +374,8 @@ def run_entry(trace: Dict[str, Any], ent: Dict[str, Any], frames: List[Tuple[int
               clock: W.SimClock, restarts=()) -> W.EntryResult:
     mon, tx, pad = trace["monitored"], trace["tx_ids"], trace.get("padding", 0)
     if ent["ep"] == "direct":
-        return W.feed_direct(frames, ent["kind"], mon, tx, ent.get("dt", "bytes"), pad, restarts)
+        return W.feed_direct(frames, ent["kind"], mon, tx, ent.get("dt", "bytes"), pad, restarts,
+                             consume=ent.get("consume", "all"))
     if ent["ep"] == "text":
         return W.feed_text(text_lines(trace), ent["kind"], mon, tx, pad)
     if ent["ep"] == "bus":
